@@ -54,6 +54,8 @@ class Vc:
 
     def __init__(self, ty, ln, slots, n=None):
         self.ty, self.len, self.slots = ty, ln, slots
+        if len(slots) != ty.cap:
+            raise ValueError('Vec value with %d slots for capacity %d' % (len(slots), ty.cap))
         if n is None:
             n = 0
             for i, x in enumerate(slots):
